@@ -310,6 +310,10 @@ def main(argv=None):
         mod.run(ctx)
         return ctx.finish()
     except Machinery as e:
+        if ctx.violations:
+            # the machinery gave up (e.g. nothing left to validate) after violations had already been observed: report those
+            print("NOTE property=%s: run cut short (%s) after %d violation(s); reporting those" % (pid, str(e)[:200], len(ctx.violations)))
+            return ctx.finish()
         print("MACHINERY-FAILURE property=%s: %s" % (pid, e))
         return 2
     except Exception as exc:
